@@ -19,7 +19,7 @@ from typing import Any, Dict, List
 
 import z3
 
-from vc.common import Obl, OblResult, Report, Undecided, Violation, discharge, main_wrapper, run_units
+from vc.common import Obl, OblResult, Report, Undecided, Violation, discharge, finish_unit, main_wrapper, run_and_discharge
 from vc.pyvc.engine import OK, Engine, State
 from vc.pyvc.values import ExcVal, IntBV, Obj, Opaque, Ref, SList
 
@@ -156,11 +156,8 @@ def _device_state(eng: Engine, cls, which: str):
     return st, ref, gi, go, terms
 
 
-def _finish(eng: Engine, extra: List[Obl]) -> List[Dict[str, Any]]:
-    res = []
-    for o in eng.obligations + extra:
-        res.append(discharge(o))
-    return [dict(r=r, dropped=list(eng.dropped)) for r in res]
+def _finish(eng: Engine, extra: List[Obl]) -> Dict[str, Any]:
+    return finish_unit(eng, extra)
 
 
 def _install_std_externals(eng: Engine, S, st_holder: Dict[str, Any]) -> None:
@@ -694,18 +691,7 @@ def body(tier: str, seed: int) -> int:
         (unit_keyboard_poll_read, ()),
         (unit_scripted_source, ()),
     ]
-    for (fn, args), (status, val) in zip(jobs, run_units(jobs)):
-        if status == 'ok':
-            rep.add_results([d['r'] for d in val])
-            for d in val:
-                for x in d['dropped']:
-                    if x not in rep.dropped:
-                        rep.dropped.append(x)
-        elif status == 'undecided':
-            rep.undecide(f'obligation={fn.__name__}{args} reason={val}')
-        else:
-            print(val)
-            rep.undecide(f'obligation={fn.__name__}{args} reason=checker-crash')
+    run_and_discharge(rep, jobs)
     for cls, meths in ((F.FixedIO, ('read_bit', 'write_bit', 'get_output')), (S.StandardIO, ('read_bit', 'write_bit', 'get_output')), (K.KeyboardIO, ('_queue_input_hex', '_queue_input_byte', '_poll', 'read_bit', 'write_bit', 'get_output')), (K.ScriptedKeyEventSource, ('next_due_event',)), (B.BrokenIO, ('read_bit', 'write_bit', 'get_output'))):
         for m in meths:
             rep.add_function(cls.__module__, f'{cls.__name__}.{m}', Engine.func_lines(getattr(cls, m)))
